@@ -479,7 +479,18 @@ def local_gp_fitting(
             "bads:local_gp_fitting: posterior GP update failed. Singular matrix for L Cholesky decomposition"
         )
         gp.set_priors(old_priors)
-        gp.set_hyperparameters(old_hyp_gp)
+        hyp_back = old_hyp_gp
+        for _ in range(10):
+            try:
+                gp.set_hyperparameters(hyp_back)
+                break
+            except np.linalg.LinAlgError:
+                # The previous hyperparameters fail on the new training set
+                # as well: retry with more observation noise
+                dic_back = gp.hyperparameters_to_dict(hyp_back)
+                for dic in dic_back:
+                    dic["noise_log_scale"] = dic["noise_log_scale"] + 1.0
+                hyp_back = gp.hyperparameters_from_dict(dic_back)
         # gp.set_hyperparameters(iteration_history.get('gp_hyp_full')[-1])
         exit_flag = -2
 
